@@ -161,6 +161,7 @@ func init() {
 			monC10StaleUpgradeInfo(s, plan)
 		}
 		monC10RestartAfterParamChange(s)
+		monC10RestartInsideUpgradeBlock(s)
 		for h := 0; h < n; h++ {
 			accts := rtAccts()
 			dbA, dbB := dbm.NewMemDB(), dbm.NewMemDB()
@@ -232,6 +233,7 @@ func init() {
 		s := NewStream(dir, "determinism")
 		defer s.Close(dir, "determinism")
 		monC09Parallelism(s)
+		monC09ReadHistory(s)
 		for h := 0; h < n; h++ {
 			accts := rtAccts()
 			a, err := NewChain(dbm.NewMemDB(), tmpHome(), accts, 100000, nil)
@@ -418,6 +420,7 @@ func init() {
 		s := NewStream(dir, "upgrade")
 		defer s.Close(dir, "upgrade")
 		monC19UpgradePathDatabase(s)
+		monC19StartAtUpgradeHeight(s)
 		monC19GenesisWithoutUpgradeSection(s)
 		for h := 0; h < n; h++ {
 			accts := rtAccts()
